@@ -139,7 +139,15 @@ type Cluster struct {
 	// OnEvent is called (under the cluster mutex) for every arrival.
 	OnEvent func(ev *Event)
 	connSeq int64
+
+	received, answered int64 // requests read / replies handed to the connection writer
 }
+
+// Received returns the number of requests read by all nodes.
+func (cl *Cluster) Received() int64 { return atomic.LoadInt64(&cl.received) }
+
+// Answered returns the number of replies written by all nodes.
+func (cl *Cluster) Answered() int64 { return atomic.LoadInt64(&cl.answered) }
 
 // New creates a cluster with nMasters masters and replicasPer replicas each; slots unassigned.
 func New(nMasters, replicasPer int) (*Cluster, error) {
@@ -487,6 +495,7 @@ func (n *Node) serve(c *Conn) {
 		if err != nil {
 			return
 		}
+		atomic.AddInt64(&n.cl.received, 1)
 		args, okArgs := resp.Args(v)
 		var rep Reply
 		if !okArgs {
@@ -494,9 +503,12 @@ func (n *Node) serve(c *Conn) {
 		} else {
 			rep = n.dispatch(c, args)
 		}
+		slept := false
 		if n.Delay != nil {
 			if d := n.Delay(args); d > 0 {
+				bw.Flush() // earlier replies are on the wire before this one is delayed
 				time.Sleep(d)
+				slept = true
 			}
 		}
 		if rep.NoReply || atomic.LoadInt32(&n.Silent) != 0 {
@@ -512,7 +524,8 @@ func (n *Node) serve(c *Conn) {
 			c.Kill(rep.Reset)
 			return
 		}
-		if rd.Buffered() == 0 {
+		atomic.AddInt64(&n.cl.answered, 1)
+		if rd.Buffered() == 0 || slept {
 			if err := bw.Flush(); err != nil {
 				return
 			}
